@@ -14,6 +14,7 @@ from vf.vloop import VLoop  # noqa: E402
 
 use_repo()
 from nauyaca.protocol.response import GeminiResponse  # noqa: E402
+from vf.responses import shaped  # noqa: E402
 from nauyaca.server.middleware import MiddlewareChain  # noqa: E402
 from nauyaca.server.protocol import GeminiServerProtocol  # noqa: E402
 
@@ -47,7 +48,7 @@ def main(pid, rep=None, finish=True):
                 async def handler(req):
                     if h_delay:
                         await asyncio.sleep(h_delay)
-                    return GeminiResponse(status=status, meta="application/octet-stream" if kind == "bytes" else "text/gemini", body=body if body else None)
+                    return shaped(status, "application/octet-stream" if kind == "bytes" else "text/gemini", body if body else None)
 
                 def entry(req):
                     return handler(req)
